@@ -171,7 +171,9 @@ def _stratify_circuit(
             for key in protocols.measurement_key_objs(op):
                 measurement_time_index[key] = time_index
             for key in protocols.control_keys(op):
-                control_time_index[key] = time_index
+                # Operations controlled by the same key do not conflict with each other, so a
+                # later one can land in an earlier moment: keep the latest moment reading the key.
+                control_time_index[key] = max(time_index, control_time_index.get(key, -1))
 
     return circuits.Circuit(circuits.Moment(moment) for moment in new_moments if moment)
 
